@@ -29,6 +29,7 @@ type mChain struct {
 	id       string
 	admin    *Key
 	services []*mService
+	rule     string // happy | bit | fabsim
 }
 
 type txMeta struct {
@@ -44,25 +45,26 @@ type txMeta struct {
 type pairT struct{ src, dst *mService }
 
 type scn struct {
-	prop    string
-	res     *sim.Result
-	cfg     CConfig
-	reps    []*replica
-	twin    *replica
-	b       *txBuilder
-	chains  []*mChain
-	pairs   []pairT
-	users   []*Key
-	poor    []*Key
-	pend    []*pb.BxhTransaction
-	pendM   []*txMeta
-	height  uint64 // height of the last executed block
-	blockNo int    // number of workload blocks executed (policy restart index)
-	ibtp    *ibtpModel
-	bal     *balModel
-	fatal   bool
-	step    int
-	inSetup bool
+	prop         string
+	res          *sim.Result
+	cfg          CConfig
+	reps         []*replica
+	twin         *replica
+	b            *txBuilder
+	chains       []*mChain
+	pairs        []pairT
+	users        []*Key
+	poor         []*Key
+	pend         []*pb.BxhTransaction
+	pendM        []*txMeta
+	height       uint64 // height of the last executed block
+	blockNo      int    // number of workload blocks executed (policy restart index)
+	ibtp         *ibtpModel
+	bal          *balModel
+	fatal        bool
+	fabsimProofs int
+	step         int
+	inSetup      bool
 }
 
 func (s *scn) vio(prop, oracle, discr, f string, a ...any) {
@@ -195,18 +197,52 @@ func (s *scn) setup() {
 		s.add(s.b.transfer(a0, p.Addr, "5000"), &txMeta{kind: "setup", sender: a0})
 	}
 	s.flush()
+	// rules
+	var bitAddr string
+	for i, c := range s.chains {
+		c.rule = "happy"
+		if i < len(s.cfg.Rules) && s.cfg.Rules[i] != "" {
+			c.rule = s.cfg.Rules[i]
+		}
+		if c.rule == "bit" && bitAddr == "" {
+			a := s.deployBitRule()
+			if a == nil {
+				return
+			}
+			bitAddr = a.String()
+		}
+	}
 	// register appchains
 	var pids []string
 	for _, c := range s.chains {
-		s.add(s.b.bvm(c.admin, constant.AppchainMgrContractAddr, "RegisterAppchain", pb.String(c.id), pb.String("name-"+c.id), pb.Bytes(nil), pb.String("ETH"),
-			pb.Bytes(nil), pb.String("broker"), pb.String("desc"), pb.String(happyRule), pb.String("url"), pb.String(c.admin.Addr.String()), pb.String("reason")),
+		rule, typ, broker, trust := happyRule, "ETH", "broker", []byte(nil)
+		switch c.rule {
+		case "bit":
+			rule = bitAddr
+		case "fabsim":
+			rule, typ = "0x00000000000000000000000000000000000000a1", "Fabric V1.4.3"
+			broker = `{"channel_id":"1","chaincode_id":"2","broker_version":"3"}`
+			trust = []byte("not a certificate")
+		}
+		s.add(s.b.bvm(c.admin, constant.AppchainMgrContractAddr, "RegisterAppchain", pb.String(c.id), pb.String("name-"+c.id), pb.Bytes(nil), pb.String(typ),
+			pb.Bytes(trust), pb.String(broker), pb.String("desc"), pb.String(rule), pb.String("url"), pb.String(c.admin.Addr.String()), pb.String("reason")),
 			&txMeta{kind: "setup", sender: c.admin})
+	}
+	if s.cfg.Relay > 0 {
+		ra := keyFor("relay-admin")
+		s.add(s.b.transfer(a0, ra.Addr, fund), &txMeta{kind: "setup", sender: a0})
+		s.add(s.b.bvm(ra, constant.AppchainMgrContractAddr, "RegisterAppchain", pb.String(relayHubID), pb.String("name-relay"), pb.Bytes(nil), pb.String("relaychain"),
+			pb.Bytes(relayTrustRoot(s.cfg.Relay)), pb.String("broker"), pb.String("desc"), pb.String(happyRule), pb.String("url"), pb.String(ra.Addr.String()), pb.String("reason")),
+			&txMeta{kind: "setup", sender: ra})
 	}
 	rs := s.flush()
 	if rs == nil {
 		return
 	}
-	for _, rc := range rs.Receipts {
+	for i, rc := range rs.Receipts {
+		if s.cfg.Relay > 0 && i == len(s.chains) {
+			continue // the funding transfer of the relay admin
+		}
 		g := &governance.GovernanceResult{}
 		if rc.Status != pb.Receipt_SUCCESS || json.Unmarshal(rc.Ret, g) != nil {
 			s.res.Aborted = fmt.Sprintf("setup: RegisterAppchain failed: %s", rc.Ret)
@@ -306,8 +342,10 @@ func (s *scn) apply(st CStep) {
 			tx.TransactionHash = tx.Hash()
 		}
 		s.add(tx, &txMeta{kind: "transfer", sender: from, local: st.Local, note: st.Amt})
-	case "ibtp":
+	case "ibtp", "entry":
 		s.applyIBTP(st)
+	case "relay":
+		s.applyRelay(st)
 	default:
 		s.applyExtra(st)
 	}
@@ -375,13 +413,43 @@ func (s *scn) applyIBTP(st CStep) {
 	case "poor":
 		sender = s.poor[st.N%len(s.poor)]
 	}
-	proof := []byte(fmt.Sprintf("proof-%d", s.step))
-	m := &txMeta{kind: "ibtp", ibtp: ib, sender: sender, proofOK: true, note: st.Kind + "/" + st.Idx}
+	// the chain whose rule judges this IBTP: the source chain for requests, the destination chain for receipts
+	judge := p.src.chain
+	if ib.Category() == pb.IBTP_RESPONSE {
+		judge = p.dst.chain
+	}
+	proof := []byte(fmt.Sprintf("1proof-%d", s.step)) // first byte '1' = 0x31: accepted by the bit rule
+	if st.Proof == "reject" {
+		proof = []byte(fmt.Sprintf("0proof-%d", s.step)) // '0' = 0x30: refused by the bit rule without an error
+	}
+	if judge.rule == "fabsim" && st.Op != "entry" {
+		// bitxhub-core's FabricSim validator panics on malformed proofs and every panic leaks one
+		// instance of its pool of 10 (known finding C03/wedged); keep a run below that so that the
+		// rest of the run is still explored. The twin executes every block twice.
+		s.fabsimProofs++
+		if s.fabsimProofs > 4 && !s.cfg.NoFabsimCap {
+			s.res.Count("skipped_fabsim_proofs_above_cap")
+			return
+		}
+	}
+	m := &txMeta{kind: "ibtp", ibtp: ib, sender: sender, proofOK: ruleAccepts(judge.rule, proof), note: st.Kind + "/" + st.Idx}
+	if !m.proofOK {
+		m.note += "/proof-refused-by-" + judge.rule + "-rule"
+	}
+	if st.Op == "entry" {
+		// plain contract invocation by an external account: no proof is ever checked on this path
+		role := s.roleKey(st.Role, p.src.chain)
+		data, _ := ib.Marshal()
+		m.kind, m.sender, m.note = "entry", role, st.M+"/"+st.Role
+		s.add(s.b.bvm(role, constant.InterchainContractAddr, st.M, pb.Bytes(data)), m)
+		return
+	}
 	var tx *pb.BxhTransaction
 	switch st.Proof {
 	case "absent":
 		tx = s.b.ibtpTx(sender, ib, nil, false)
 		m.proofOK = false
+		m.note += "/proof-absent"
 	case "badhash":
 		tx = s.b.ibtpTx(sender, ib, proof, true)
 		tx.Extra = []byte("another proof")
@@ -389,6 +457,7 @@ func (s *scn) applyIBTP(st CStep) {
 		_ = tx.Sign(sender.Priv)
 		tx.TransactionHash = tx.Hash()
 		m.proofOK = false
+		m.note += "/proof-hash-mismatch"
 	default:
 		tx = s.b.ibtpTx(sender, ib, proof, true)
 	}
@@ -439,11 +508,19 @@ func (s *scn) flush() *blockResult {
 				}
 			}
 		}
-		br, err := r.execute(ev, 30*time.Second)
+		br, err := r.execute(ev, 12*time.Second)
 		if err != nil {
 			if err == errWedged {
-				s.vio("C08", "wedged", "", "block %d (%d txs) produced no executed event on replica %d", h, len(txs), r.id)
-				s.res.Aborted = "replica wedged"
+				discr := ""
+				if s.fabsimProofs >= 10 {
+					discr = "after-10-or-more-malformed-fabsim-proofs"
+				}
+				s.vio("C08", "wedged", discr, "block %d (%d txs) produced no executed event on replica %d", h, len(txs), r.id)
+				s.vio("C03", "wedged", discr, "block %d (%d txs) produced no executed event on replica %d: proof verification blocks forever", h, len(txs), r.id)
+				s.fatal = true
+				if len(s.res.Violations) == 0 {
+					s.res.Aborted = "replica wedged" // owned by C08/C03; an aborted run for every other property
+				}
 			} else {
 				s.res.Aborted = "execute: " + err.Error()
 			}
@@ -591,4 +668,61 @@ func isPrintable(s string) bool {
 		}
 	}
 	return true
+}
+
+// roleKey resolves a caller role to a key.
+func (s *scn) roleKey(role string, c *mChain) *Key {
+	switch role {
+	case "chainadmin":
+		return c.admin
+	case "otherchainadmin":
+		return s.chains[(indexOfChain(s.chains, c)+1)%len(s.chains)].admin
+	case "govadmin":
+		return s.cfg.World.adminKey(0)
+	case "node":
+		return keyFor("node")
+	default:
+		return s.users[len(s.users)-1]
+	}
+}
+
+// applyRelay: an IBTP relayed from the other BitXHub (id 1357) to a local service.
+func (s *scn) applyRelay(st CStep) {
+	if s.cfg.Relay <= 0 || len(s.chains) == 0 {
+		return
+	}
+	var dsts []*mService
+	for _, c := range s.chains {
+		dsts = append(dsts, c.services...)
+	}
+	d := dsts[((st.Pair%len(dsts))+len(dsts))%len(dsts)]
+	from := fmt.Sprintf("%s:remotechain:svc%d", relayHubID, st.Pair%2)
+	to := d.full(s.cfg.World.ChainID)
+	pm := s.ibtp.pair(from, to)
+	ib := &pb.IBTP{From: from, To: to, Type: pb.IBTP_INTERCHAIN, TimeoutHeight: st.T}
+	ib.Index = s.ibtp.pickIndex(pm.reqSubmitted(), st.Idx)
+	n := s.cfg.Relay
+	proof, distinct := relayProof(ib, pb.TransactionStatus_BEGIN, st.Signers, n)
+	sender := s.users[1%len(s.users)]
+	valid := distinct > (n-1)/3
+	m := &txMeta{kind: "relay", ibtp: ib, sender: sender, proofOK: valid, note: fmt.Sprintf("signers=%d/%d distinct-registered=%d", len(st.Signers), n, distinct)}
+	var tx *pb.BxhTransaction
+	switch st.Proof {
+	case "absent":
+		tx = s.b.ibtpTx(sender, ib, nil, false)
+		m.proofOK = false
+		m.note += "/proof-absent"
+	case "badhash":
+		tx = s.b.ibtpTx(sender, ib, proof, true)
+		tx.Extra = append([]byte("x"), proof...)
+		tx.Signature = nil
+		_ = tx.Sign(sender.Priv)
+		tx.TransactionHash = tx.Hash()
+		m.proofOK = false
+		m.note += "/proof-hash-mismatch"
+	default:
+		tx = s.b.ibtpTx(sender, ib, proof, true)
+	}
+	pm.noteReqSubmitted(ib.Index)
+	s.add(tx, m)
 }
